@@ -5,8 +5,11 @@ import (
 	stded "crypto/ed25519"
 	"crypto/elliptic"
 	"crypto/rsa"
-	"math/big"
+	"crypto/sha512"
 	"fmt"
+	"golang.org/x/crypto/hkdf"
+	"io"
+	"math/big"
 	"sync"
 
 	"github.com/cloudflare/circl/oprf"
@@ -227,6 +230,47 @@ func runC17(c *Ctx) {
 			return fmt.Sprint(err == nil), "true"
 		}
 	})
+	// the whole rate-limited flow: many clients (own secrets and blinds, hence fresh request keys in every call), one issuer,
+	// an attester of their own each — the index the attester derives is the one of (client key, origin index key)
+	scenario("type3.flow:client+issuer.Evaluate+attester", func() func(g, k int) (string, string) {
+		iss := type3.NewRateLimitedIssuer(rsaKey(r.IntN(4)))
+		ikA, _ := ecdsa.CreateKey(elliptic.P384(), r.Bytes(48))
+		ikB, _ := ecdsa.CreateKey(elliptic.P384(), r.Bytes(48))
+		iss.AddOriginWithIndexKey("a.example", ikA)
+		iss.AddOriginWithIndexKey("b.example", ikB)
+		return func(g, k int) (string, string) {
+			h := sha512.Sum384(msg(g, k))
+			secret, blind := h[:48], append([]byte{byte(g + 1), byte(k + 1)}, h[:46]...)
+			origin, ik := "a.example", ikA
+			if (g+k)%2 == 1 {
+				origin, ik = "b.example", ikB
+			}
+			st, err := type3.NewRateLimitedClientFromSecret(secret).CreateTokenRequest(msg(g, k), bytes.Repeat([]byte{byte(g)}, 32), blind, iss.TokenKeyID(), iss.TokenKey(), origin, iss.NameKey())
+			if err != nil {
+				return "create-error", "ok"
+			}
+			resp, brk, err := iss.Evaluate(st.Request().Marshal())
+			if err != nil {
+				return "evaluate-error", "ok"
+			}
+			att := type3.NewRateLimitedAttester(newMemCache())
+			if att.VerifyRequest(*st.Request(), blind, st.ClientKey(), []byte("anon")) != nil {
+				return "attester-refused", "ok"
+			}
+			idx, err := att.FinalizeIndex(st.ClientKey(), blind, brk, []byte("anon"))
+			if err != nil {
+				return "index-error", "ok"
+			}
+			if _, err := st.FinalizeToken(resp); err != nil {
+				return "finalize-error", "ok"
+			}
+			sk, _ := ecdsa.CreateKey(elliptic.P384(), secret)
+			bp, _ := ecdsa.BlindPublicKeyWithContext(elliptic.P384(), &sk.PublicKey, ik, t3ctx("IssuerBlind"))
+			ref := make([]byte, 48)
+			io.ReadFull(hkdf.New(sha512.New384, elliptic.MarshalCompressed(elliptic.P384(), bp.X, bp.Y), st.ClientKey(), []byte("IssuerOriginAlias")), ref)
+			return hxv(idx), hxv(ref)
+		}
+	})
 	scenario("batched.issuer:EvaluateBatch", func() func(g, k int) (string, string) {
 		a1 := newAd1(c.Seed, "c17-1", r.Bytes(8))
 		a2 := newAd2(c.Seed, "c17-2", r.IntN(4))
@@ -298,8 +342,8 @@ func runC17(c *Ctx) {
 type plainIssuer struct{ a *adIssuer }
 
 func (p plainIssuer) Evaluate(req tokens.TokenRequest) ([]byte, error) { return p.a.eval(req) }
-func (p plainIssuer) TokenKeyID() []byte                              { return p.a.keyID }
-func (p plainIssuer) Type() uint16                                    { return p.a.ty }
+func (p plainIssuer) TokenKeyID() []byte                               { return p.a.keyID }
+func (p plainIssuer) Type() uint16                                     { return p.a.ty }
 
 func trunc(s string) string {
 	if len(s) > 120 {
